@@ -1,11 +1,31 @@
 import Drv.Common
-import IwModel.Model.Exf
+import IwModel.Model.ExfLsn
 import IwModel.Gen.Exf
 /-! `drv c12`: the extensible-file model behind the protocol of harness/h_c12.c. -/
 namespace Drv.C12
 open IwModel Drv IwModel.Exf
 
-def init : St := { psize := Gen.Exf.EXF_PSIZE, cbuf := Gen.Exf.EXF_COPY_BUF }
+/-- driver state: the model state and the listener mode of the protocol (0 none, 1 passive, 2 handling) -/
+structure DSt where
+  st : St
+  lsn : Nat := 0
+
+def init : DSt := { st := { psize := Gen.Exf.EXF_PSIZE, cbuf := Gen.Exf.EXF_COPY_BUF } }
+
+def evText : Ev → String
+  | .write off d => s!" W:{off}:{d.length}:{hexOut d}"
+  | .set off val len => s!" S:{off}:{val}:{len}"
+  | .copy off len noff => s!" C:{off}:{len}:{noff}"
+  | .resize o n false => s!" R:{o}:{n}"
+  | .resize o n true => s!" r:{o}:{n}"
+  | .synced => " Y"
+  | .closing => " X"
+
+/-- FNV-1a of every page of a byte string (protocol lines `rx` / `fx`) -/
+def pageHashes (ps : Nat) (bs : Bytes) : String :=
+  let n := if ps = 0 then 0 else (bs.length + ps - 1) / ps
+  String.join ((List.range (min n 400)).map fun k => " " ++ hex8' (fnv32 ((bs.drop (k * ps)).take ps)))
+where hex8' (n : Nat) : String := String.ofList ((List.range 8).reverse.map fun i => hexDigit (n / 16 ^ i % 16))
 
 def hex8 (n : Nat) : String :=
   String.ofList ((List.range 8).reverse.map fun i => hexDigit (n / 16 ^ i % 16))
@@ -13,39 +33,54 @@ def hex8 (n : Nat) : String :=
 def polOf (p n d : String) : Policy :=
   if p == "fibo" then .fibo else if p == "mul" then .mul (natArg n) (natArg d) else .dflt
 
-def step (st : St) (ws : List String) : St × String :=
+/-- one protocol line: new state, answer, listener calls (as the model with a listener in mode `m` makes them) -/
+def stepL (m : Lsn) (st : St) (ws : List String) : St × String × List Ev :=
   match ws with
   | ["open", p, n, d, maxoff, initial, trunc] =>
-    let (rc, st') := openFile st (polOf p n d) (natArg maxoff) (natArg initial) (trunc != "0")
-    (st', s!"open {rc.name} {if st'.isOpen then st'.fsize else 0}")
+    let (rc, st', e) := openFileL m st (polOf p n d) (natArg maxoff) (natArg initial) (trunc != "0")
+    (st', s!"open {rc.name} {if st'.isOpen then st'.fsize else 0}", e)
   | _ =>
-    if !st.isOpen then (st, "closed") else
+    if !st.isOpen then (st, "closed", []) else
     match ws with
-    | ["close"] => let st' := close st; (st', s!"close ok {st'.file.length}")
+    | ["close"] => let st' := close st; (st', s!"close ok {st'.file.length}", [.closing])
     | ["w", off, len, seed] =>
       let d := pattern (natArg seed) (natArg len)
-      let (st', rc, _) := exec st (.write (intArg off) d)
-      (st', s!"w {rc.name} {if rc == .ok then d.length else 0} {st'.fsize}")
+      let (st', rc, _, e) := execL m st (.op (.write (intArg off) d))
+      (st', s!"w {rc.name} {if rc == .ok then d.length else 0} {st'.fsize}", e)
     | ["r", off, len] =>
-      let (_, rc, bs) := exec st (.read (intArg off) (natArg len))
-      (st, s!"r {rc.name} {bs.length} {hex8 (fnv32 bs)} {hexOut (bs.take 24)}")
+      let (_, rc, bs, e) := execL m st (.op (.read (intArg off) (natArg len)))
+      (st, s!"r {rc.name} {bs.length} {hex8 (fnv32 bs)} {hexOut (bs.take 24)}", e)
     | ["cp", off, siz, noff] =>
-      let (st', rc, _) := exec st (.copy (natArg off) (natArg siz) (natArg noff))
-      (st', s!"cp {rc.name} {st'.fsize}")
-    | ["tr", size] => let (st', rc, _) := exec st (.truncate (natArg size)); (st', s!"tr {rc.name} {st'.fsize}")
-    | ["es", size] => let (st', rc, _) := exec st (.ensure (natArg size)); (st', s!"es {rc.name} {st'.fsize}")
+      let (st', rc, _, e) := execL m st (.op (.copy (natArg off) (natArg siz) (natArg noff)))
+      (st', s!"cp {rc.name} {st'.fsize}", e)
+    | ["tr", size] => let (st', rc, _, e) := execL m st (.op (.truncate (natArg size))); (st', s!"tr {rc.name} {st'.fsize}", e)
+    | ["es", size] => let (st', rc, _, e) := execL m st (.op (.ensure (natArg size))); (st', s!"es {rc.name} {st'.fsize}", e)
     | ["am", off, maxlen, opts] =>
-      let (st', rc, _) := exec st (.addMmap (natArg off) (natArg maxlen) (natArg opts % 2 == Gen.Exf.IWFS_MMAP_PRIVATE))
-      (st', s!"am {rc.name}")
-    | ["rm", off] => let (st', rc, _) := exec st (.removeMmap (natArg off)); (st', s!"rm {rc.name}")
-    | ["sm", off] => (st, s!"sm {(probeMmap st (natArg off)).1.name}")
-    | ["pm", off] => let (rc, n) := probeMmap st (natArg off); (st, s!"pm {rc.name} {n}")
+      let (st', rc, _, e) := execL m st (.op (.addMmap (natArg off) (natArg maxlen) (natArg opts % 2 == Gen.Exf.IWFS_MMAP_PRIVATE)))
+      (st', s!"am {rc.name}", e)
+    | ["rm", off] => let (st', rc, _, e) := execL m st (.op (.removeMmap (natArg off))); (st', s!"rm {rc.name}", e)
+    | ["sm", off] => (st, s!"sm {(probeMmap st (natArg off)).1.name}", [])
+    | ["pm", off] => let (rc, n) := probeMmap st (natArg off); (st, s!"pm {rc.name} {n}", [])
     | ["mw", so, rel, len, seed] =>
-      let (st', rc, _) := exec st (.mmapWrite (natArg so) (natArg rel) (pattern (natArg seed) (natArg len)))
-      (st', s!"mw {rc.name} {(probeMmap st (natArg so)).2}")
-    | ["ra"] => let (st', rc, _) := exec st .remapAll; (st', s!"ra {rc.name}")
-    | ["sy"] => (st, "sy ok")
-    | ["st"] => (st, s!"st {st.fsize} {st.file.length}")
-    | _ => (st, "bad-op")
+      let (st', rc, _, e) := execL m st (.op (.mmapWrite (natArg so) (natArg rel) (pattern (natArg seed) (natArg len))))
+      (st', s!"mw {rc.name} {(probeMmap st (natArg so)).2}", e)
+    | ["mwr", so, rel, len, seed] =>
+      let (st', rc, _, e) := execL m st (.mmapWriteR (natArg so) (natArg rel) (pattern (natArg seed) (natArg len)))
+      (st', s!"mwr {rc.name} {(probeMmap st (natArg so)).2}", e)
+    | ["ra"] => let (st', rc, _, e) := execL m st (.op .remapAll); (st', s!"ra {rc.name}", e)
+    | ["sy"] => (st, "sy ok", [.synced])
+    | ["st"] => (st, s!"st {st.fsize} {st.file.length}", [])
+    | ["rx"] =>
+      let (_, _, bs, _) := execL m st (.op (.read 0 st.fsize))
+      (st, s!"rx {st.fsize}{pageHashes st.psize bs}", [])
+    | ["fx"] => (st, s!"fx {st.file.length}{pageHashes st.psize st.file}", [])
+    | _ => (st, "bad-op", [])
+
+def step (ds : DSt) (ws : List String) : DSt × String :=
+  match ws with
+  | ["lsn", k] => ({ ds with lsn := if natArg k ≤ 2 then natArg k else 0 }, "lsn ok")
+  | _ =>
+    let (st', out, e) := stepL (if ds.lsn == 2 then .handling else .passive) ds.st ws
+    ({ ds with st := st' }, if ds.lsn == 0 then out else out ++ " |" ++ String.join (e.map evText))
 
 end Drv.C12
